@@ -39,7 +39,7 @@ def check(run, tier, seed, replay=None):
     for i, s in enumerate(pscs):
         s["owner"]["paused"] = (i % 3 != 0)
     setcheck.set_check(run, "C09", tier, seed, replay, 1000, 15000, "judge09g",
-                       "C09 write on a member of a paused ObjectSet / phase",
+                       "C09 write on a member of a paused ObjectSet / phase, or a paused pass that does not end with what the cache holds (actual / failed objects)",
                        "seeded random worlds with paused ObjectSets (members missing, modified, foreign-owned, uncached) through the real "
                        "controller, and paused owners of all five phase-controller flavours through the real PhaseReconciler",
                        phase_judge="judge09p", phase_scs=pscs,
